@@ -43,7 +43,7 @@ func builtinJSONParse(call FunctionCall) Value {
 	}
 	if revive {
 		root := ctx.call.runtime.newObject()
-		root.put("", value, false)
+		root.defineProperty("", value, 0o111, false) // [[DefineOwnProperty]], not [[Put]]: ECMA 262 15.12.2
 		return builtinJSONReviveWalk(ctx, root, "")
 	}
 	return value
@@ -111,7 +111,7 @@ func builtinJSONParseWalk(ctx builtinJSONParseContext, rawValue interface{}) (Va
 		obj := ctx.call.runtime.newObject()
 		for name, rawValue := range value {
 			if value, exists := builtinJSONParseWalk(ctx, rawValue); exists {
-				obj.put(name, value, false)
+				obj.defineProperty(name, value, 0o111, false) // [[DefineOwnProperty]], not [[Put]]: inherited accessors do not intercept members
 			}
 		}
 		return objectValue(obj), true
@@ -199,7 +199,7 @@ func builtinJSONStringify(call FunctionCall) Value {
 		}
 	}
 	holder := call.runtime.newObject()
-	holder.put("", call.Argument(0), false)
+	holder.defineProperty("", call.Argument(0), 0o111, false) // [[DefineOwnProperty]], not [[Put]]: ECMA 262 15.12.3 step 10
 	value, exists := builtinJSONStringifyWalk(ctx, "", holder)
 	if !exists {
 		return Value{}
